@@ -3,6 +3,10 @@ import AvoVerif.Props.C16
 #print axioms Avo.Locals.locals_ok
 #print axioms Avo.Locals.forced_local_not_handed_out
 #print axioms Avo.Locals.text_frame
+#print axioms Avo.Locals.asm_text_frame
+#print axioms Avo.Locals.text_frame_wraps
+#print axioms Avo.Locals.acceptLocalsText_sound
+#print axioms Avo.Locals.locals_in_text_frame
 #print axioms Avo.Locals.stack_addr_text
 #print axioms Avo.Locals.read_back
 #print axioms Avo.NumText.parseNat_digits
